@@ -172,6 +172,12 @@ func init() {
 					}
 				}
 			}
+			if bad == "" {
+				// idempotent (theorem C20_truncate_idempotent)
+				if out2, pan2 := c20truncate(out, size, trail); pan2 != "" || out2 != out {
+					bad = fmt.Sprintf("truncating the result again gives %q %s", out2, pan2)
+				}
+			}
 			if bad != "" {
 				e.Violate("c20-truncate", fmt.Sprintf("truncate(%q,%d,%q) = %q: %s", s, size, trail, out, bad), rp)
 			}
